@@ -189,7 +189,8 @@ func (g *G) genSWR(id string) *History {
 	}
 	life := pick(g, int64(0), 1, 10)
 	swr := pick(g, int64(30), 60, 3600)
-	first := Hdr{{"Date", dateAt(0, 0)}, {"Cache-Control", fmt.Sprintf("max-age=%d, stale-while-revalidate=%d", life, swr)}}
+	first := Hdr{{"Date", dateAt(0, 0)}, {"Cache-Control", fmt.Sprintf("max-age=%d, stale-while-revalidate=%d", life, swr) +
+		pick(g, "", "", "", `, no-cache="ETag"`, `, no-cache="Last-Modified"`, `, no-cache="etag, last-modified, X-New"`)}}
 	if g.chance(0.7) {
 		first = append(first, [2]string{"Etag", `"v1"`})
 	}
@@ -375,9 +376,15 @@ func (g *G) genChain(id string) *History {
 	if g.chance(0.3) {
 		first = append(first, [2]string{"Age", pick(g, "1", "3", strconv.FormatInt(L-1, 10))})
 	}
-	h.Ops = append(h.Ops, Op{Op: "req", AtNs: 0, Method: "GET", URL: url, Replies: []Reply{{Status: 200, Hdr: first, Body: "c0", BodyFail: -1}}})
+	d0 := pick(g, int64(0), 0, sec, 2*sec, 12*sec) // a slow origin: the response delay counts once in the age
+	h.Ops = append(h.Ops, Op{Op: "req", AtNs: 0, Method: "GET", URL: url, Replies: []Reply{{Status: 200, Hdr: first, Body: "c0", BodyFail: -1, DelayNs: d0}}})
 	cur := int64(0)
 	life := L
+	if early := (L - pick(g, int64(1), 2, 3)) * sec; g.chance(0.5) && early >= d0+5*sec {
+		// a probe while the response is still fresh by a second or more
+		h.Ops = append(h.Ops, Op{Op: "req", AtNs: early, Method: "GET", URL: url, Replies: []Reply{{Status: 200, Hdr: Hdr{{"Date", dateAt(early, 0)}, {"Cache-Control", "no-store"}}, Body: "unexpected", BodyFail: -1}}})
+		cur = early
+	}
 	rounds := 1 + g.r.Intn(3)
 	for i := 0; i < rounds; i++ {
 		// the validating exchange
